@@ -17,20 +17,39 @@ pub enum POp {
     Disable,
     /// a master user request
     User(UserKind),
-    AddPoll { classes: u8, period_ms: u64 },
+    AddPoll {
+        classes: u8,
+        period_ms: u64,
+    },
     DemandPoll(usize),
     /// one database transaction of the outstation application
     Update(Vec<UpdateOp>),
-    Cut { eof: bool },
+    Cut {
+        eof: bool,
+    },
     /// nothing is delivered in this direction for `ms`
-    Stall { to_master: bool, ms: u64 },
+    Stall {
+        to_master: bool,
+        ms: u64,
+    },
     /// the next write in this direction is held up by `ms` (on top of the latency)
-    HoldNext { to_master: bool, ms: u64 },
+    HoldNext {
+        to_master: bool,
+        ms: u64,
+    },
     /// the connection is cut right after the n-th write from now in this direction (what was written last is lost when `eof` is false)
-    CutAfterWrites { to_master: bool, nth: u32, eof: bool },
+    CutAfterWrites {
+        to_master: bool,
+        nth: u32,
+        eof: bool,
+    },
     /// a database transaction made by another thread at the moment the outstation task reaches a lock / wait point
     /// (site substring, occurrences to skip)
-    UpdateAtLock { site: String, skip: u32, ops: Vec<UpdateOp> },
+    UpdateAtLock {
+        site: String,
+        skip: u32,
+        ops: Vec<UpdateOp>,
+    },
     /// what the outstation application reports as its processing delay
     ProcessingDelay(u16),
     /// the outstation application's NEED_TIME indication
@@ -89,11 +108,17 @@ pub async fn drive(sim: &Sim, case: &PairCase) -> PairRun {
         sim.spawn("acceptor", async move {
             let mut n = 0u64;
             loop {
-                let Accepted { to_client, from_client, .. } = net.accept().await;
+                let Accepted {
+                    to_client,
+                    from_client,
+                    ..
+                } = net.accept().await;
                 n += 1;
                 *connections.lock().unwrap() = n;
                 *conn.lock().unwrap() = Some((from_client.clone(), to_client.clone()));
-                connector.connect_with(from_client, to_client, chunk, seed.wrapping_add(n)).await;
+                connector
+                    .connect_with(from_client, to_client, chunk, seed.wrapping_add(n))
+                    .await;
             }
         });
     }
@@ -101,7 +126,8 @@ pub async fn drive(sim: &Sim, case: &PairCase) -> PairRun {
     let mut polls: Vec<crate::master::PollHandle> = Vec::new();
     let mut op_marks = Vec::new();
     let mut user_kinds = Vec::new();
-    let updates: Arc<Mutex<Vec<(u64, u64, UpdateOp, crate::outstation::database::UpdateInfo)>>> = Arc::new(Mutex::new(Vec::new()));
+    let updates: Arc<Mutex<Vec<(u64, u64, UpdateOp, crate::outstation::database::UpdateInfo)>>> =
+        Arc::new(Mutex::new(Vec::new()));
     // transactions waiting for the outstation task to reach a lock point: (site, occurrences to skip, updates)
     let lockq: Arc<Mutex<Vec<(String, u32, Vec<UpdateOp>)>>> = Arc::new(Mutex::new(Vec::new()));
     {
@@ -129,7 +155,11 @@ pub async fn drive(sim: &Sim, case: &PairCase) -> PairRun {
                         if let Some(core) = &core {
                             core.count("fault.update_at_lock_point", 1);
                             if core.log_enabled() {
-                                core.log(format!("  user transaction at lock point '{}': {} updates", site, ops.len()));
+                                core.log(format!(
+                                    "  user transaction at lock point '{}': {} updates",
+                                    site,
+                                    ops.len()
+                                ));
                             }
                         }
                         let mut ups = updates.lock().unwrap();
@@ -168,7 +198,10 @@ pub async fn drive(sim: &Sim, case: &PairCase) -> PairRun {
             POp::User(kind) => {
                 if let Some(h) = node.assocs.first() {
                     let h = h.clone();
-                    node.rec.lock().unwrap().push(MEv::Other { assoc: h.address().raw_value(), what: format!("user-request id={} {:?}", next_user_id, kind) });
+                    node.rec.lock().unwrap().push(MEv::Other {
+                        assoc: h.address().raw_value(),
+                        what: format!("user-request id={} {:?}", next_user_id, kind),
+                    });
                     spawn_user(sim, &node, next_user_id, &h, kind);
                     user_kinds.push((next_user_id, h.address().raw_value(), kind.clone()));
                     next_user_id += 1;
@@ -177,7 +210,8 @@ pub async fn drive(sim: &Sim, case: &PairCase) -> PairRun {
             POp::AddPoll { classes, period_ms } => {
                 if let Some(h) = node.assocs.first() {
                     let mut h = h.clone();
-                    let slot: Arc<Mutex<Option<crate::master::PollHandle>>> = Arc::new(Mutex::new(None));
+                    let slot: Arc<Mutex<Option<crate::master::PollHandle>>> =
+                        Arc::new(Mutex::new(None));
                     let s2 = slot.clone();
                     let req = crate::master::ReadRequest::class_scan(classes_of(*classes));
                     let period = Duration::from_millis(*period_ms);
@@ -218,7 +252,11 @@ pub async fn drive(sim: &Sim, case: &PairCase) -> PairRun {
             POp::Cut { eof } => {
                 let c = conn.lock().unwrap().clone();
                 if let Some((a, b)) = c {
-                    let kind = if *eof { CloseKind::Eof } else { CloseKind::Reset };
+                    let kind = if *eof {
+                        CloseKind::Eof
+                    } else {
+                        CloseKind::Reset
+                    };
                     io::chan_close(&a, kind);
                     io::chan_close(&b, kind);
                     sim.count("fault.cut");
@@ -242,15 +280,29 @@ pub async fn drive(sim: &Sim, case: &PairCase) -> PairRun {
                     sim.count("fault.hold_next");
                 }
             }
-            POp::CutAfterWrites { to_master, nth, eof } => {
+            POp::CutAfterWrites {
+                to_master,
+                nth,
+                eof,
+            } => {
                 let c = conn.lock().unwrap().clone();
                 if let Some((c2s, s2c)) = c {
                     let ch = if *to_master { s2c } else { c2s };
-                    ch.lock().unwrap().cut_after_writes = Some(((*nth).max(1), if *eof { CloseKind::Eof } else { CloseKind::Reset }));
+                    ch.lock().unwrap().cut_after_writes = Some((
+                        (*nth).max(1),
+                        if *eof {
+                            CloseKind::Eof
+                        } else {
+                            CloseKind::Reset
+                        },
+                    ));
                 }
             }
             POp::UpdateAtLock { site, skip, ops } => {
-                lockq.lock().unwrap().push((site.clone(), *skip, ops.clone()));
+                lockq
+                    .lock()
+                    .unwrap()
+                    .push((site.clone(), *skip, ops.clone()));
             }
             POp::ProcessingDelay(ms) => {
                 out.rec.lock().unwrap().processing_delay_ms = *ms;
@@ -287,7 +339,11 @@ pub async fn drive(sim: &Sim, case: &PairCase) -> PairRun {
     let end_ms = sim.now_ms();
     let out_log: Vec<(u64, u64, Cb)> = {
         let r = out.rec.lock().unwrap();
-        r.log.iter().zip(r.orders.iter()).map(|((t, cb), o)| (*t, *o, cb.clone())).collect()
+        r.log
+            .iter()
+            .zip(r.orders.iter())
+            .map(|((t, cb), o)| (*t, *o, cb.clone()))
+            .collect()
     };
     let master_log = node.rec.lock().unwrap().log.clone();
     let n = *connections.lock().unwrap();
@@ -332,7 +388,11 @@ where
             *r2.lock().unwrap() = Some(r);
         })
     };
-    let report = if decode_all || log { crate::verif::trace_sub::with_subscriber(run) } else { run() };
+    let report = if decode_all || log {
+        crate::verif::trace_sub::with_subscriber(run)
+    } else {
+        run()
+    };
     outcome.sim_ms = report.sim_ms;
     outcome.steps = report.steps;
     outcome.trace_hash = report.trace_hash;
@@ -342,15 +402,23 @@ where
             outcome.count(k, *v);
         }
     }
-    outcome.count("fault.rechunk", report.counters.get("phys_reads").copied().unwrap_or(0));
+    outcome.count(
+        "fault.rechunk",
+        report.counters.get("phys_reads").copied().unwrap_or(0),
+    );
     match &report.exit {
         Exit::Done => {}
         Exit::Panic(task, msg, loc) => {
             if loc.contains("/verif/") {
-                outcome.harness_error = Some(format!("harness panic in {}: {} at {}", task, msg, loc));
+                outcome.harness_error =
+                    Some(format!("harness panic in {}: {} at {}", task, msg, loc));
             } else {
                 let short = loc.rsplit("/dnp3/src/").next().unwrap_or(loc).to_string();
-                outcome.violation = Some(Violation::new(&format!("{}/panic", prop), short, format!("task '{}' panicked: {} at {}", task, msg, loc)));
+                outcome.violation = Some(Violation::new(
+                    &format!("{}/panic", prop),
+                    short,
+                    format!("task '{}' panicked: {} at {}", task, msg, loc),
+                ));
             }
             return outcome;
         }
